@@ -36,6 +36,7 @@ K3_ASSUME = COMMON_ASSUMPTIONS + ["A-COMP", "A-PURE", "A-MARKER", "HoleC for chi
                                   "K2 contracts of __quote/__convert (proved under C02)"]
 FRESH = U('pyvc.fresh', 'unit', 'FRESH', needs_k3=True)
 TAL_BASIC = [K("k3::S-Define"), K("k3::S-Condition"), K("k3::S-Content"), K("k3::S-OmitTag"),
+             K("k3::S-OmitTag-empty"), K("k3::S-OmitTag-selfclosing"),
              K("k3::S-Attribute"), K("k3::S-Repeat")]
 
 S_TALES = [K("k3::S-Pipe3"), K("k3::S-Not"), K("k3::S-Exists")]
@@ -73,7 +74,7 @@ PROPS = {
     "C06": k3prop(
         "Emitted code for ${...} in text is proved to append the literal parts unchanged with $$ "
         "un-doubled, each expression converted once; with meta:interpolation off nothing is evaluated.",
-        S_INTERP,
+        S_INTERP + [U('pyvc.frames', 'instance_state', 'instance_state')],
         ["the delimiter search of Interpolator.__call__ (regex + validity loop; bounded stand-in pending)",
          "attribute / comment / CDATA contexts (pending)", "entity decoding of the expression text"]),
     "C07": k3prop(
@@ -105,16 +106,53 @@ PROPS = {
         "expression is evaluated is proved to be the recorded position of exactly that expression's "
         "text, and the token table entries are checked against the template source.",
         TAL_BASIC + S_TALES + S_INTERP + [K("k3::S-OnError-keep"), K("k3::S-I18nTarget"),
-                                            K("k3::S-UseExternal")],
+                                            K("k3::S-UseExternal"), K("k3::S-MacroUseInternal")],
         ["BaseTemplate.render exception flow and create_formatted_exception (pending)",
          "ExceptionFormatter record order (pending)"]),
+    "C14": {
+        "technique": TECH + "; frame and ordering clauses decided on the AST of the real functions",
+        "level_text": "Per-call frame contracts: render()/include()/Macros write nothing to the template, "
+                      "its class or a module; scope, render-wide context, stream and repeat dictionary are "
+                      "created per call; no class-level container is mutated through self by the "
+                      "compiler/program/parser classes; cook publishes the render functions before the "
+                      "compiled flag; generated identifiers are node-unique (FRESH).",
+        "level_note": "Only the sequential, per-call part of the property is decided. NOT decided: the "
+                      "schedules quantifier (interleavings of threads in cook / cook_check / loader.load) - "
+                      "outside what per-call contracts can express; publication order is the one "
+                      "concurrency-relevant fact proved, under sequential consistency of attribute writes.",
+        "units": [U('pyvc.frames', 'cook_publication_order', 'cook.publication_order'),
+                  U('pyvc.frames', 'render_write_frame', 'render.write_frame'),
+                  U('pyvc.frames', 'instance_state', 'instance_state'), FRESH],
+        "not_decided": ["thread interleavings (schedule-quantified; no schedule exploration in this family)",
+                        "cross-process identity of output (follows from alpha-equivalence of generated "
+                        "code; not checked yet)"],
+        "assumptions": COMMON_ASSUMPTIONS + ["sequential consistency of attribute writes (GIL)"],
+    },
+    "C15": {
+        "technique": TECH + "; reads-frame on the AST; trace contract over external file-system calls",
+        "level_text": "(1) Reads-frame: every option PageTemplate.parse/_compile reads is proved to be part "
+                      "of the cache key computed by digest(). (2) ModuleLoader.build is proved, on every "
+                      "path including every failure of an external call, to produce the final name only "
+                      "by renaming a closed temporary file of the same directory, to remove the temporary "
+                      "file after a failed write, and to release the lock last.",
+        "level_note": "Assumed: POSIX rename atomicity and mkstemp uniqueness, py_compile's own atomic "
+                      "write, SourceFileLoader. Crash points = prefixes of the proved trace; process "
+                      "crash, not power loss. Interleavings of two writers follow from the same trace "
+                      "facts plus rename atomicity (argument, not machine-checked).",
+        "units": [U('pyvc.frames', 'digest_reads_frame', 'digest.reads_frame'),
+                  K("loader.py::ModuleLoader.build")],
+        "not_decided": ["ModuleLoader.get/_load and _get_module_name (pending)",
+                        "two-writer interleavings (schedule-quantified)"],
+        "assumptions": COMMON_ASSUMPTIONS + ["POSIX: rename is atomic, mkstemp names are unique"],
+    },
     "C19": k3prop(
         "Non-strict compilation is proved (on the emitted code) to raise the original ExpressionError, "
         "with the invalid expression's token and position, if and only if rendering reaches it; strict "
         "compilation is checked to reject the same template with that token and offset.",
-        [K("k3::S-Deferred"), K("k3::S-Strict-rejects")],
-        ["identity of strict and non-strict code for valid templates (pending: strict-identity unit)",
-         "strict option plumbing / reads-frame (pending)"]),
+        [K("k3::S-Deferred"), K("k3::S-Strict-rejects"),
+         U('pyvc.frames', 'strict_reads_frame', 'strict.reads_frame'),
+         U('pyvc.frames', 'strict_identity', 'strict_identity', needs_k3=True)],
+        ["pickle round trip of ExpressionError (bounded stand-in pending)"]),
     "C20": k3prop(
         "Text-mode templates: the emitted code is proved to copy the source text ('<', '&', tags "
         "included) with each ${expr} replaced by the unescaped string form and $$ by $, also when the "
